@@ -236,6 +236,7 @@ def edge_constraint(fn, br, target):
                 continue
         break
     if on_true == neg: pred = NEG.get(pred)
+    if pred and a[0] in ('int', 'null') and b[0] not in ('int', 'null'): pred, a, b = SWAP[pred], b, a      # constant on the right
     return (pred, a, b) if pred else None
 
 def lower_bound(fn, con, is_x):
